@@ -3,6 +3,7 @@ import Driver.Ledger
 import Driver.LedgerOracle
 import Driver.Costs
 import Driver.Gains
+import Driver.Determinism
 open Driver
 
 def runLedger (c : Case) : Res :=
@@ -23,6 +24,7 @@ def dispatch (c : Case) : Res :=
   | "ledger" => runLedger c
   | "costs" => runCosts c
   | "gains" => runGains c
+  | "determinism" => runDeterminism c
   | f => { verdict := "BADCASE", msg := s!"unknown family {f}" }
 
 def main : IO Unit := do
